@@ -81,6 +81,7 @@ pub fn run(p: &LifeParams, sc: &str) -> (Vec<Vec<String>>, Value) {
         Model(ModelTransport),
         Mmio(virtio_drivers::transport::mmio::MmioTransport<'static>),
     }
+    let cfg_len = cfg.len();
     let t = if p.transport == "mmio" {
         let dev = std::rc::Rc::new(std::cell::RefCell::new(crate::mmio::VirtioMmioDev::new(
             if p.legacy { 1 } else { 2 }, zoo::device_type(&p.kind) as u32, p.offered, zoo::num_queues(&p.kind), p.max_queue, cfg.clone())));
@@ -128,13 +129,20 @@ pub fn run(p: &LifeParams, sc: &str) -> (Vec<Vec<String>>, Value) {
         w.dma_calls
     });
     hooks::uninstall();
+    let mlines = with_world(|w| {
+        let mut l = w.m_lines(&[]);
+        if !l.is_empty() {
+            l.insert(0, json!({"e":"MReset","sc":sc,"ver":if p.legacy { 1 } else { 2 },"cfg_len":cfg_len}).to_string());
+        }
+        l
+    });
     let dlines = with_world(|w| {
         let l: Vec<String> = w.d_lines(&["Panic"]).into_iter().filter(|l| !l.contains("\"e\":\"TNew\"")).collect();
         w.trace.clear();
         l
     });
     let n = dlines.len() + segs.len();
-    (vec![dlines, segs], json!({"result": result, "events": n, "dma_allocs": allocs}))
+    (vec![dlines, segs, mlines], json!({"result": result, "events": n, "dma_allocs": allocs}))
 }
 
 pub fn all_params(thorough: bool, seed: u64) -> Vec<LifeParams> {
